@@ -89,13 +89,13 @@ func parseEncryptedPrivateKeyBlock(derKey []byte) (crypto.PrivateKey, error) {
 	passphrase := []byte(os.Getenv("WEB_BUNDLE_SIGNING_PASSPHRASE"))
 
 	if len(passphrase) == 0 {
-		fmt.Println("The key is passphrase-encrypted. Please provide the passphrase and then press ENTER. ")
+		fmt.Fprintln(os.Stderr, "The key is passphrase-encrypted. Please provide the passphrase and then press ENTER. ")
 		passphrase, _ = terminal.ReadPassword(0)
 		if len(passphrase) == 0 {
 			return nil, errors.New("signingalgorithm: invalid passphrase to decrypt the private key.")
 		}
 	} else {
-		fmt.Println("The key is passphrase-encrypted. Passphrase was successfully read from WEB_BUNDLE_SIGNING_PASSPHRASE environment variable.")
+		fmt.Fprintln(os.Stderr, "The key is passphrase-encrypted. Passphrase was successfully read from WEB_BUNDLE_SIGNING_PASSPHRASE environment variable.")
 	}
 
 	if keyInterface, err := pkcs8.ParsePKCS8PrivateKey(derKey, passphrase); err == nil {
